@@ -232,6 +232,8 @@ def finishCase (s : CSt) : CSt :=
     let s := s.spec "C14" "headsAreEntries" (H.all (fun h => has E h.hash)) s!"log {l}"
     if bounded then s else
     let s := s.spec "C13" "finalHeadsOk" (headsOk E H) s!"log {l}"
+    -- C14: a union with a real state of the source has exactly its unreferenced entries as heads
+    let s := s.spec "C14" "finalHeadsOfUnion" (headsOk E H) s!"log {l}: heads {",".intercalate raw}"
     let s := s.spec "C14" "finalClosed" (closedOk E) s!"log {l}"
     let s := s.spec "C13" "finalValuesOk" (valuesOk .lww E V) s!"log {l}"
     s) s
